@@ -24,6 +24,8 @@ impl LangInterpreter for Script {
             }
             [b'h'] => b.shift(2),
             b"and" if !b.is_empty() => Err(Error::Incomplete),
+            // an unguarded conjunction that is not a linking word (like German `und`, Dutch `en`)
+            b"cj" => Err(Error::Incomplete),
             _ => Err(Error::NaN),
         }
     }
